@@ -96,7 +96,8 @@ impl Engine for FaultEngine {
         let mut knobs = BTreeMap::new();
         let thorough = tier == "thorough";
         // 0 random, 1 single enumerated, 2 pairs, 3 persistent failure from a call on
-        knobs.insert("mode".into(), c.below(4) as i64);
+        // 4: the next two or three writes of a metadata copy are cut short at an arbitrary byte
+        knobs.insert("mode".into(), if c.chance(1, 9) { 4 } else { c.below(4) as i64 });
         knobs.insert("points".into(), if thorough { if c.chance(1, 3) { -1 } else { 10 } } else { 3 });
         knobs.insert("rate".into(), *c.pick(&[10i64, 40, 120]));
         knobs.insert("read_faults".into(), c.chance(1, 3) as i64);
@@ -144,7 +145,7 @@ impl Engine for FaultEngine {
         let mut report = BodyReport::default();
         let mut pick = Tape::fresh(mix(sc.seed, 0xFA17));
         // explicit plan in the scenario (a minimised replay): just run it
-        if !sc.faults.at_call.is_empty() || sc.faults.dead_from_call.is_some() || sc.faults.random_per_mille > 0 {
+        if !sc.faults.at_call.is_empty() || sc.faults.dead_from_call.is_some() || sc.faults.random_per_mille > 0 || sc.faults.short_metadata_writes.is_some() {
             run_once(sim, sc, Some(sc.faults.clone()), &mut report, &mut pick);
             return report;
         }
@@ -222,6 +223,13 @@ impl Engine for FaultEngine {
                     }
                 }
             }
+            4 => {
+                for _ in 0..want.clamp(1, 4) {
+                    let (call, _) = candidates[pick.below(candidates.len() as u32) as usize];
+                    let from = if pick.chance(1, 2) { dry.calls_after_open } else { call };
+                    plans.push(FaultPlan { short_metadata_writes: Some((from, 2 + pick.below(2))), ..FaultPlan::default() });
+                }
+            }
             _ => {
                 for _ in 0..want.clamp(1, 6) {
                     let (call, _) = candidates[pick.below(candidates.len() as u32) as usize];
@@ -275,6 +283,7 @@ fn check_images(
         ack_calls: Vec::new(),
         site_calls: Vec::new(),
         crashed_inside: false,
+        focus_calls: Vec::new(),
     };
     let mut images: Vec<(String, Vec<u8>)> = vec![("as-it-stands".into(), disk.cache_image())];
     let family = capture.family(512, 3, false, 2, pick);
@@ -323,7 +332,7 @@ fn run_once(sim: &Arc<Sim>, sc: &Scenario, plan: Option<FaultPlan>, report: &mut
         return None;
     }
     let calls_after_open = disk.calls();
-    let plan_label = plan.as_ref().map(|p| format!("{:?}/dead{:?}/rnd{}", p.at_call, p.dead_from_call, p.random_per_mille)).unwrap_or_else(|| "fault-free".into());
+    let plan_label = plan.as_ref().map(|p| format!("{:?}/dead{:?}/rnd{}/shortmeta{:?}", p.at_call, p.dead_from_call, p.random_per_mille, p.short_metadata_writes)).unwrap_or_else(|| "fault-free".into());
     let faulty = plan.is_some();
     if let Some(p) = plan {
         disk.set_plan(p);
@@ -530,6 +539,7 @@ fn run_once(sim: &Arc<Sim>, sc: &Scenario, plan: Option<FaultPlan>, report: &mut
                 ack_calls: Vec::new(),
                 site_calls: Vec::new(),
                 crashed_inside: false,
+                focus_calls: Vec::new(),
             };
             let (len, idx) = (env.st().len(), env.st().verif_hash_keys().len());
             if let Err((rule, detail)) = check_recovered(&run, &got, len, idx, false, sim.now_wall(), &format!("{plan_label} reopen after indeterminate failure")) {
